@@ -32,7 +32,7 @@ From Onsager Require Import Base.OrdRing Base.Instances Model.Net Model.Intersti
 Import ListNotations.
 Local Open Scope Z_scope.
 Definition rundom (c : list Z * list Z * list (jump Zring)) : bool :=
-  let '(wT, wT', jumps) := c in dominatedb (K:=Zring) (net_of wT jumps) (net_of wT' jumps).
+  let '(wT, wT', jumps) := c in dominatedb (K:=Zring) (net_of (K:=Zring) wT jumps) (net_of (K:=Zring) wT' jumps).
 """
 
 
